@@ -97,6 +97,13 @@ func DoneAll() {
 	}
 }
 
+// ConstructedCount returns how often the constructor ran for a token.
+func ConstructedCount(tok *onet.Token) int {
+	recMu.Lock()
+	defer recMu.Unlock()
+	return Constructed[tok.ID().String()]
+}
+
 // AllRecs returns the recorders by token id.
 func AllRecs() map[string]*Rec {
 	recMu.Lock()
